@@ -1504,16 +1504,69 @@ def variant_eq_as_match(t):
     return map_preds(t, fn)
 
 
-def str_bytes_as_display(t, is_str):
+def _utf8_buf_fits(n):
+    """the buffer argument of char::encode_utf8 certainly holds any character (>= 4 bytes): `&mut [x; N]` / `&mut [a, b, c, d]`"""
+    while isinstance(n, dict) and n.get("k") in ("ref", "paren"):
+        n = n["e"]
+    if not isinstance(n, dict):
+        return False
+    if n.get("k") == "repeat":
+        ln = n["n"]
+        return ln.get("k") == "lit" and ln.get("t") == "int" and int(ln["v"]) >= 4
+    if n.get("k") == "array":
+        return len(n["elems"]) >= 4
+    return False
+
+
+def str_bytes_as_display(t, is_str, is_char=None):
     """`sink.write_all(X.as_bytes())` writes exactly the bytes `write!(sink, "{}", X)` writes when X is a str / String:
-    Raw(`X.as_bytes()`) -> Hole(X, "") for every X accepted by is_str(canonical text of X, node of X)"""
+    Raw(`X.as_bytes()`) -> Hole(X, "") for every X accepted by is_str(canonical text of X, node of X).
+    With is_char, the same for a char C: `C.encode_utf8(&mut [0; N>=4]).as_bytes()`, `C.to_string().as_bytes()`,
+    `String::from(C).as_bytes()` are the UTF-8 encoding of C, which is what Display of a char writes."""
+    def strip(n):
+        while isinstance(n, dict) and n.get("k") in ("ref", "paren"):
+            n = n["e"]
+        return n
+
+    def subject(n):
+        """node X such that the str expression n has the bytes of Display(X), or None"""
+        n = strip(n)
+        if not isinstance(n, dict):
+            return None
+        if is_str(canon(n), n):
+            return n
+        if is_char is not None and is_char(canon(n), n):
+            return None             # a char is not a str: only through the conversions below
+        if n.get("k") == "mcall":
+            r = strip(n["recv"])
+            if n["m"] in ("as_str", "as_ref", "to_owned", "to_string", "clone", "borrow", "as_mut_str", "deref") and not n["args"]:
+                if n["m"] == "to_string" and is_char is not None and is_char(canon(r), r):
+                    return r
+                return subject(r)
+            if n["m"] == "encode_utf8" and len(n["args"]) == 1 and is_char is not None and is_char(canon(r), r) and _utf8_buf_fits(n["args"][0]):
+                return r
+        if n.get("k") == "call" and len(n.get("args") or []) == 1 and n["f"].get("k") == "path" and \
+                re.sub(r"\s", "", n["f"].get("p", "")) in ("String::from", "std::string::String::from", "string::String::from"):
+            a0 = strip(n["args"][0])
+            if is_char is not None and is_char(canon(a0), a0):
+                return a0
+            return subject(a0)
+        return None
+
     def fn(a):
         if isinstance(a, Raw) and isinstance(a.node, dict):
-            n = a.node
-            while n.get("k") in ("ref", "paren"):
-                n = n["e"]
-            if n.get("k") == "mcall" and n["m"] == "as_bytes" and not n["args"] and is_str(canon(n["recv"]), n["recv"]):
-                return Hole(canon(n["recv"]), "", node=n["recv"], written=a.expr, line=a.line)
+            n = strip(a.node)
+            if n.get("k") == "mcall" and n["m"] in ("as_bytes", "as_bytes_mut", "into_bytes") and not n["args"]:
+                x = subject(n["recv"])
+                if x is not None:
+                    return Hole(canon(x), "", node=x, written=a.expr, line=a.line)
+        if isinstance(a, Hole) and a.spec == "" and is_char is not None and isinstance(a.node, dict):
+            # `{}` of the str made from a char (`c.encode_utf8(..)`, `c.to_string()`) is `{}` of the char
+            n = strip(a.node)
+            if not is_str(canon(n), n) and not is_char(canon(n), n):
+                x = subject(n)
+                if x is not None and is_char(canon(x), x):
+                    return Hole(canon(x), "", node=x, written=a.written, line=a.line)
         return a
     return map_atoms(t, fn)
 
